@@ -76,14 +76,21 @@ def _byte_iter_events(ctx, cfg, fn, op, _depth=0):
     return None
 
 
-def _iter_parts(zf, fd, op, depth=0):
-    """[(atoms, 'each' | 'append')] for the items of an iterator operand built from chain / once / iter / array literals"""
+def _iter_parts(zf, fd, op, depth=0, follow=None):
+    """[(atoms, 'each' | 'append')] for the items of an iterator operand built from chain / once / iter / array literals;
+    `follow(call)` (optional) answers for an iterator or array returned by a local helper, in this function's terms"""
     if op.get('k') not in ('copy', 'move') or depth > 8:
         return None
     lit = _array_literal_ops(zf, op)
     if lit is not None:
         return [(set(x for x in fd.read_op(o) if strip(x)[0] == 'p'), 'append') for o in lit]
     pl = op['pl']
+    if follow is not None and not pl.get('p'):
+        d0 = zf.single_def(pl['l'])
+        if d0 is not None and d0[0] == 'call':
+            r = follow(d0[2])
+            if r is not None:
+                return r
     ty = zf.body.local_ty(pl['l']).replace('&mut ', '').lstrip('&').strip()
     if ty.startswith(('[', 'std::vec::Vec<')):
         return [(set(x for x in fd.read_op(op) if strip(x)[0] == 'p'), 'each')]
@@ -94,20 +101,48 @@ def _iter_parts(zf, fd, op, depth=0):
         return None
     if d[0] == 'assign' and d[2]['rv']['k'] in ('use', 'ref'):
         src = d[2]['rv'].get('pl') or d[2]['rv'].get('op', {}).get('pl')
-        return _iter_parts(zf, fd, {'k': 'copy', 'pl': src}, depth + 1) if src is not None else None
+        return _iter_parts(zf, fd, {'k': 'copy', 'pl': src}, depth + 1, follow) if src is not None else None
     if d[0] != 'call':
         return None
     t = d[2]
     cal = t.get('callee') or ''
+    if follow is not None:
+        r = follow(t)
+        if r is not None:
+            return r
     if cal in ('std::iter::Iterator::chain',) and len(t['args']) == 2:
-        a, b = _iter_parts(zf, fd, t['args'][0], depth + 1), _iter_parts(zf, fd, t['args'][1], depth + 1)
+        a, b = _iter_parts(zf, fd, t['args'][0], depth + 1, follow), _iter_parts(zf, fd, t['args'][1], depth + 1, follow)
         return None if a is None or b is None else a + b
     if cal in ('std::iter::once', 'core::iter::once') and t['args']:
         return [(set(x for x in fd.read_op(t['args'][0]) if strip(x)[0] == 'p'), 'append')]
     if cal in ('core::slice::<impl [T]>::iter', 'std::iter::IntoIterator::into_iter', 'std::iter::Iterator::copied', 'std::iter::Iterator::cloned',
-               'std::iter::Iterator::by_ref', 'std::ops::Deref::deref', 'std::vec::Vec::<T, A>::as_slice') and t['args']:
-        return _iter_parts(zf, fd, t['args'][0], depth + 1)
+               'std::iter::Iterator::by_ref', 'std::ops::Deref::deref', 'std::vec::Vec::<T, A>::as_slice',
+               'core::array::<impl [T; N]>::iter', 'core::array::<impl [T; N]>::as_slice') and t['args']:
+        return _iter_parts(zf, fd, t['args'][0], depth + 1, follow)
     return None
+
+
+def _helper_parts(ctx, cfg, fn, _depth=0):
+    """follow-function for _iter_parts in fn: the items of an array / iterator returned by a local helper, instantiated at the call"""
+    prog, eng, za = ctx.prog(cfg), ctx.eng(cfg), ctx.zone(cfg)
+    fd = eng.fndep(fn)
+
+    def follow(t):
+        tgt = local_target(eng, t)
+        if tgt is None or tgt == fn or tgt not in prog.bodies or _depth > 3:
+            return None
+        za.summary(tgt)
+        sub = _iter_parts(za.zf(tgt), eng.fndep(tgt), {'k': 'copy', 'pl': {'l': 0}}, 0, _helper_parts(ctx, cfg, tgt, _depth + 1))
+        if sub is None:
+            return None
+        out = []
+        for sat, kind in sub:
+            inst = set()
+            for x in sat:
+                inst |= {y for y in fd._inst_atom(x, t['args']) if strip(y)[0] == 'p'}
+            out.append((inst, kind))
+        return out
+    return follow
 
 
 def _append_events(ctx, cfg, fn, root, _depth=0):
@@ -166,9 +201,14 @@ def _append_events(ctx, cfg, fn, root, _depth=0):
                             loop_it = {'k': 'copy', 'pl': {'l': src}}
             if loop_it is not None:
                 lit = _array_literal_ops(zf, loop_it)
+                parts = None if lit is not None else _iter_parts(zf, fd, loop_it, 0, _helper_parts(ctx, cfg, fn))
                 if lit is not None:
                     for o in lit:
                         out.append((set(x for x in fd.read_op(o) if strip(x)[0] == 'p'), w, 'append'))
+                elif parts is not None:
+                    # the loop runs over a sequence put together from fields (array of references, chain, once ...): one event per part, in order
+                    for at, kind in parts:
+                        out.append((at, w, kind))
                 else:
                     out.append((atoms, w, 'each'))
             else:
@@ -567,86 +607,204 @@ def rule_generator_offsets(ctx, cfg='prod-all'):
 _STRICT = {('any', 'Ge', (0, 1)), ('any', 'Le', (1, 0)), ('all', 'Lt', (0, 1)), ('all', 'Gt', (1, 0))}
 
 
-def _ascending_validated(prog, eng, body, fd, root, use_block):
-    """the list is in canonical form because anything else is refused: `list.windows(2).any(|w| w[0] >= w[1])` (or the `all` / mirrored forms)
-    is evaluated on every path to use_block, which is reached only on the outcome "every neighbour pair is strictly ascending"."""
-    from flow import GateAnalysis
-    for bi, t in body.calls():
-        cal = t.get('callee') or ''
-        q = cal.split('::')[-1]
-        if cal not in ('std::iter::Iterator::any', 'std::iter::Iterator::all') or len(t['args']) != 2 or not body.dominates(bi, use_block):
-            continue
-        # the receiver: windows(2) of the list
-        op, ok = t['args'][0], False
-        for _ in range(8):
-            if op['k'] not in ('copy', 'move'):
-                break
-            ds = [d for d in fd.defs.get(op['pl']['l'], []) if not d[2].get('dst', {}).get('p')]
-            if len(ds) != 1:
-                break
-            d = ds[0]
-            if d[0] == 'assign' and d[2]['rv']['k'] in ('use', 'ref'):
-                src = d[2]['rv'].get('pl') or d[2]['rv'].get('op', {}).get('pl')
-                if src is None:
-                    break
-                op = {'k': 'copy', 'pl': src}
-                continue
-            if d[0] == 'call' and (d[2].get('callee') or '').endswith('<impl [T]>::windows') and len(d[2]['args']) == 2:
-                a1 = d[2]['args'][1]
-                two = a1['k'] == 'const' and a1.get('int') == '2'
-                ok = two and d[2]['args'][0]['k'] in ('copy', 'move') and fd.resolve_place(d[2]['args'][0]['pl'])[0] == root
-                break
-            if d[0] == 'call' and (d[2].get('callee') or '') in ('std::iter::IntoIterator::into_iter', 'std::iter::Iterator::by_ref') and d[2]['args']:
-                op = d[2]['args'][0]
-                continue
+def _strict_test(prog, eng, body, fd, t, root):
+    """'any' / 'all' when the call t is `<root>.windows(2).any(|w| w[0] >= w[1])` or one of its `all` / mirrored forms (a test that is false / true
+    exactly on strictly ascending lists); None otherwise"""
+    cal = t.get('callee') or ''
+    q = cal.split('::')[-1]
+    if cal not in ('std::iter::Iterator::any', 'std::iter::Iterator::all') or len(t['args']) != 2:
+        return None
+    # the receiver: windows(2) of the list
+    op, ok = t['args'][0], False
+    for _ in range(8):
+        if op['k'] not in ('copy', 'move'):
             break
-        if not ok or t['args'][1]['k'] not in ('copy', 'move'):
+        ds = [d for d in fd.defs.get(op['pl']['l'], []) if not d[2].get('dst', {}).get('p')]
+        if len(ds) != 1:
+            break
+        d = ds[0]
+        if d[0] == 'assign' and d[2]['rv']['k'] in ('use', 'ref'):
+            src = d[2]['rv'].get('pl') or d[2]['rv'].get('op', {}).get('pl')
+            if src is None:
+                break
+            op = {'k': 'copy', 'pl': src}
             continue
-        ci = fd._closure_info(t['args'][1]['pl']['l'])
-        cb = prog.bodies.get(ci[0]) if ci else None
-        if cb is None:
+        if d[0] == 'call' and (d[2].get('callee') or '').endswith('<impl [T]>::windows') and len(d[2]['args']) == 2:
+            a1 = d[2]['args'][1]
+            two = a1['k'] == 'const' and a1.get('int') == '2'
+            ok = two and d[2]['args'][0]['k'] in ('copy', 'move') and fd.resolve_place(d[2]['args'][0]['pl'])[0] == root
+            break
+        if d[0] == 'call' and (d[2].get('callee') or '') in ('std::iter::IntoIterator::into_iter', 'std::iter::Iterator::by_ref') and d[2]['args']:
+            op = d[2]['args'][0]
             continue
-        cfd = eng.fndep(cb.path)
-        rds = [d for d in cfd.defs.get(0, []) if not d[2].get('dst', {}).get('p')]
-        if len(rds) != 1 or rds[0][0] != 'assign' or rds[0][2]['rv']['k'] != 'binop':
-            continue
-        rv = rds[0][2]['rv']
+        break
+    if not ok or t['args'][1]['k'] not in ('copy', 'move'):
+        return None
+    ci = fd._closure_info(t['args'][1]['pl']['l'])
+    cb = prog.bodies.get(ci[0]) if ci else None
+    if cb is None:
+        return None
+    cfd = eng.fndep(cb.path)
+    rds = [d for d in cfd.defs.get(0, []) if not d[2].get('dst', {}).get('p')]
+    if len(rds) != 1 or rds[0][0] != 'assign' or rds[0][2]['rv']['k'] != 'binop':
+        return None
+    rv = rds[0][2]['rv']
 
-        def window_index(o):
-            """k for an operand that is a copy of `w[k]` (w = the closure's element parameter, k a literal)"""
+    def window_index(o):
+        """k for an operand that is a copy of `w[k]` (w = the closure's element parameter, k a literal)"""
+        for _ in range(4):
+            if o['k'] not in ('copy', 'move'):
+                return None
+            pl = o['pl']
+            idx = [p_ for p_ in pl.get('p', []) if p_['k'] in ('index', 'constindex')]
+            if idx:
+                r0 = cfd.resolve_place({'l': pl['l']})[0]
+                if r0 != 2:
+                    return None
+                if idx[0]['k'] == 'constindex':
+                    return idx[0].get('o')
+                ids = [d for d in cfd.defs.get(idx[0]['l'], [])]
+                if len(ids) == 1 and ids[0][0] == 'assign' and ids[0][2]['rv']['k'] == 'use' and ids[0][2]['rv']['op']['k'] == 'const':
+                    v = ids[0][2]['rv']['op'].get('int')
+                    return int(v) if v is not None and v.isdigit() else None
+                return None
+            ds2 = [d for d in cfd.defs.get(pl['l'], []) if not d[2].get('dst', {}).get('p')]
+            if len(ds2) != 1 or ds2[0][0] != 'assign' or ds2[0][2]['rv']['k'] != 'use':
+                return None
+            o = ds2[0][2]['rv']['op']
+        return None
+    ka, kb = window_index(rv['a']), window_index(rv['b'])
+    if (q, rv['op'], (ka, kb)) not in _STRICT:
+        return None
+    return q
+
+
+def _ascending_on_success(prog, eng, cb, k, depth=0):
+    """a local function succeeds (returns true / Ok / Some) only if its list parameter k is strictly ascending"""
+    from flow import accept_blocks
+    cfd = eng.fndep(cb.path)
+    if cfd is None or depth > 2:
+        return False
+    acc = accept_blocks(cfd, True)
+    if not acc:
+        return False
+    for bi, kind, extra in acc:
+        if kind == 'tail' and isinstance(extra, dict) and _strict_test(prog, eng, cb, cfd, extra, k) == 'all':
+            continue          # `list.windows(2).all(|w| w[0] < w[1])` returned as it is
+        if kind == 'boolvar' and extra is not None and not extra.get('p'):
+            # `!list.windows(2).any(..)` / the test held in a variable
+            l, neg, okv = extra['l'], False, False
             for _ in range(4):
-                if o['k'] not in ('copy', 'move'):
-                    return None
-                pl = o['pl']
-                idx = [p_ for p_ in pl.get('p', []) if p_['k'] in ('index', 'constindex')]
-                if idx:
-                    r0 = cfd.resolve_place({'l': pl['l']})[0]
-                    if r0 != 2:
-                        return None
-                    if idx[0]['k'] == 'constindex':
-                        return idx[0].get('o')
-                    ids = [d for d in cfd.defs.get(idx[0]['l'], [])]
-                    if len(ids) == 1 and ids[0][0] == 'assign' and ids[0][2]['rv']['k'] == 'use' and ids[0][2]['rv']['op']['k'] == 'const':
-                        v = ids[0][2]['rv']['op'].get('int')
-                        return int(v) if v is not None and v.isdigit() else None
-                    return None
-                ds2 = [d for d in cfd.defs.get(pl['l'], []) if not d[2].get('dst', {}).get('p')]
-                if len(ds2) != 1 or ds2[0][0] != 'assign' or ds2[0][2]['rv']['k'] != 'use':
-                    return None
-                o = ds2[0][2]['rv']['op']
-            return None
-        ka, kb = window_index(rv['a']), window_index(rv['b'])
-        if (q, rv['op'], (ka, kb)) not in _STRICT:
+                ds = [d for d in cfd.defs.get(l, []) if not d[2].get('dst', {}).get('p')]
+                if len(ds) != 1:
+                    break
+                d = ds[0]
+                if d[0] == 'assign' and d[2]['rv']['k'] == 'unop' and d[2]['rv']['op'] == 'Not' and d[2]['rv']['a']['k'] in ('copy', 'move'):
+                    neg, l = not neg, d[2]['rv']['a']['pl']['l']
+                    continue
+                if d[0] == 'assign' and d[2]['rv']['k'] == 'use' and d[2]['rv']['op']['k'] in ('copy', 'move') and not d[2]['rv']['op']['pl'].get('p'):
+                    l = d[2]['rv']['op']['pl']['l']
+                    continue
+                if d[0] == 'call':
+                    q = _strict_test(prog, eng, cb, cfd, d[2], k)
+                    okv = (q == 'all' and not neg) or (q == 'any' and neg)
+                break
+            if okv:
+                continue
+        if _ascending_validated(prog, eng, cb, cfd, k, bi, depth + 1):
             continue
-        # polarity: the use is reached only when no pair violates (any -> false, all -> true)
-        ga = GateAnalysis(eng)
-        for g in ga.block_gates(fd, use_block):
-            if g.kind == 'call' and g.what == cal and g.args is t['args'] and g.dom and g.truth is (q == 'all'):
+        return False
+    return True
+
+
+def _ascending_validated(prog, eng, body, fd, root, use_block, depth=0):
+    """the list is in canonical form because anything else is refused: `list.windows(2).any(|w| w[0] >= w[1])` (or the `all` / mirrored forms)
+    is evaluated on every path to use_block, which is reached only on the outcome "every neighbour pair is strictly ascending".  The test may
+    sit in a local predicate (`if !is_strictly_ascending(&list) { return Err }`) or in a local checking function whose success is required
+    (`let (..) = layout(list, ..)?`): then the callee succeeds only on such lists (_ascending_on_success)."""
+    from flow import GateAnalysis
+    ga = GateAnalysis(eng)
+    gates = None
+
+    def all_gates():
+        """the conditions use_block depends on, with the conditions handed to a local checking function as arguments (`ensure(!bad, msg)?`)"""
+        gs = list(ga.block_gates(fd, use_block))
+        for g in list(gs):
+            if g.kind == 'deleg' and g.dom is True and g.callee in prog.bodies and g.callee != body.path:
+                alts = ga._lift_paths(fd, g.callee, g.args, g.dom, (body.path,), want=(g.truth is not False)) or []
+                if len(alts) == 1:
+                    gs.extend(alts[0])
+        return gs
+    for bi, t in body.calls():
+        q = _strict_test(prog, eng, body, fd, t, root)
+        if q is None:
+            continue
+        # polarity: the use is reached only when the test was evaluated and no pair violates (any -> false, all -> true)
+        if gates is None:
+            gates = all_gates()
+        for g in gates:
+            if g.kind == 'call' and g.what == (t.get('callee') or '') and g.args is t['args'] and g.dom is True and g.truth is (q == 'all'):
                 return True
+    if depth > 2:
+        return False
+    if gates is None:
+        gates = all_gates()
+    for g in gates:
+        if g.kind != 'deleg' or g.dom is not True or g.truth is False or g.callee not in prog.bodies or g.callee == body.path:
+            continue
+        cb = prog.bodies[g.callee]
+        for k, a in enumerate(g.args or []):
+            if a['k'] in ('copy', 'move') and fd.resolve_place(a['pl'])[0] == root and k + 1 <= cb.arg_count:
+                if cb.local_ty(0) == 'bool' and g.truth is not True:
+                    continue
+                if _ascending_on_success(prog, eng, cb, k + 1, depth):
+                    return True
     return False
 
 
-def _normalised_before(prog, eng, body, fd, root, use_block, depth=0):
+def _returned_member(eng, fd, root):
+    """(call, member path) when local `root` holds (a member of) the success payload of a call to a local function, taken through `?` /
+    unwrap and tuple patterns"""
+    l, path = root, ()
+    for _ in range(8):
+        ds = [d for d in fd.defs.get(l, []) if not d[2].get('dst', {}).get('p')]
+        if len(ds) != 1:
+            return None
+        kind, bi, x = ds[0]
+        if kind == 'assign' and x['rv']['k'] == 'use' and x['rv']['op']['k'] in ('copy', 'move'):
+            pl = x['rv']['op']['pl']
+            ps = [q for q in pl.get('p', []) if q['k'] != 'deref']
+            if any(q['k'] not in ('field', 'downcast') for q in ps):
+                return None
+            fields = []
+            skip = False
+            for q in ps:
+                if q['k'] == 'downcast':
+                    if q['n'] not in ('Ok', 'Some', 'Continue'):
+                        return None
+                    skip = True
+                    continue
+                if skip:
+                    skip = False       # the payload member `.0` of the variant
+                    continue
+                fields.append(str(q['n']))
+            path = tuple(fields) + path
+            l = pl['l']
+            continue
+        if kind == 'call':
+            cal = x.get('callee') or ''
+            if local_target(eng, x) is not None and local_target(eng, x) != fd.body.path:
+                return (x, path)
+            if cal in ('std::ops::Try::branch', 'std::result::Result::<T, E>::unwrap', 'std::result::Result::<T, E>::expect', 'std::option::Option::<T>::unwrap',
+                       'std::option::Option::<T>::expect', 'std::result::Result::<T, E>::map_err', 'std::option::Option::<T>::ok_or',
+                       'std::option::Option::<T>::ok_or_else') and x['args'] and x['args'][0]['k'] in ('copy', 'move') and not x['args'][0]['pl'].get('p'):
+                l = x['args'][0]['pl']['l']
+                continue
+        return None
+    return None
+
+
+def _normalised_before(prog, eng, body, fd, root, use_block, depth=0, path=()):
     """is the index list held in local `root` sorted and de-duplicated on every path to use_block?  Either both calls are made on it in this
     body and dominate the use, or it is the result of a local helper that returns a list on which both calls dominate the return."""
     sorts, dedups = [], []
@@ -675,6 +833,36 @@ def _normalised_before(prog, eng, body, fd, root, use_block, depth=0):
                 ok, why = _normalised_before(prog, eng, cb, cfd, r2, rds[0][1], depth + 1)
                 if ok:
                     return True, why
+    # a member of what a local checking function hands back on success (`let (M, indexes) = layout(..)?`): the pieces it is built from there
+    rc = _returned_member(eng, fd, root) if depth < 3 else None
+    if depth < 3 and path and len(ds) == 1 and ds[0][0] == 'call' and local_target(eng, ds[0][2]) not in (None, body.path):
+        rc = (ds[0][2], tuple(str(x) for x in path))      # (the value was followed through its aliases to the call itself)
+    if rc is not None:
+        t, path = rc
+        tgt = local_target(eng, t)
+        cb, cfd = prog.bodies[tgt], eng.fndep(tgt)
+        oks = [(bi, st['rv']) for bi, st in cb.stmts() if st['k'] == 'assign' and st['dst']['l'] == 0 and not st['dst'].get('p')
+               and st['rv']['k'] == 'agg' and st['rv'].get('variant') in ('Ok', 'Some')]
+        if len(oks) == 1 and oks[0][1]['ops']:
+            bi, rv = oks[0]
+            o = rv['ops'][0]
+            for nm in path:
+                dd = [d for d in cfd.defs.get(o['pl']['l'], []) if not d[2].get('dst', {}).get('p')] if o['k'] in ('copy', 'move') and not o['pl'].get('p') else []
+                if len(dd) == 1 and dd[0][0] == 'assign' and dd[0][2]['rv']['k'] == 'agg' and dd[0][2]['rv'].get('ak') == 'tuple' and nm.isdigit() \
+                        and int(nm) < len(dd[0][2]['rv']['ops']):
+                    o = dd[0][2]['rv']['ops'][int(nm)]
+                else:
+                    o = None
+                    break
+            if o is not None and o['k'] in ('copy', 'move'):
+                r2 = cfd.resolve_place(o['pl'])[0]
+                whys = []
+                for r in _list_sources(cb, cfd, r2):
+                    ok, why = _normalised_before(prog, eng, cb, cfd, r, bi, depth + 1)
+                    if not ok:
+                        return False, why
+                    whys.append(why)
+                return True, '; '.join(sorted(set(whys)))[:200]
     # a plain copy of a normalised list
     if depth < 3 and len(ds) == 1 and ds[0][0] == 'assign' and ds[0][2]['rv']['k'] in ('use', 'ref'):
         src = ds[0][2]['rv'].get('pl') or ds[0][2]['rv'].get('op', {}).get('pl')
@@ -770,14 +958,14 @@ def rule_index_normalisation(ctx, cfg='prod-all'):
                     continue
                 if 'index' not in (cb.local_name(k + 1) or ''):
                     continue
-                root = fd.resolve_place(a['pl'])[0]
+                root, rpath = fd.resolve_place(a['pl'])
                 at = fd.read(root, ())
                 derived = any(x[0] == 'p' and 'index' in (b.local_name(x[1]) or '') for x in at)      # its elements (not just its length) come from an index list
                 if not derived:
                     continue      # e.g. the list of undisclosed positions computed here
                 # lists merged from normalised pieces (blind interface): every piece must be normalised
                 roots = _list_sources(b, fd, root)
-                res = [_normalised_before(prog, eng, b, fd, r, bi) for r in roots]
+                res = [_normalised_before(prog, eng, b, fd, r, bi, path=(rpath if r == root else ())) for r in roots]
                 n += 1
                 oks.append(all(r[0] for r in res))
                 facts.append({'user': tgt.split('::')[-1], 'arg': cb.local_name(k + 1), 'pieces': [r[1] for r in res]})
@@ -785,12 +973,66 @@ def rule_index_normalisation(ctx, cfg='prod-all'):
                  fact=facts[:6], expected='every index list handed on is sorted and de-duplicated')
 
 
+def _value_list_origins(body, fd, op):
+    """roots of the lists of integers a value is taken or computed from (an element handed out by an iteration, a copy of a list, an element
+    plus an offset ...); None when the value has a source that cannot be followed"""
+    def is_list(l):
+        ty = body.local_ty(l).replace('&mut ', '').lstrip('&').strip()
+        return ty.startswith(('[usize', 'std::vec::Vec<usize', '[u64', 'std::vec::Vec<u64', '[u32', 'std::vec::Vec<u32'))
+    if op['k'] not in ('copy', 'move'):
+        return []
+    out, seen, st = set(), set(), [op['pl']['l']]
+    while st:
+        l = st.pop()
+        if l in seen:
+            continue
+        seen.add(l)
+        if len(seen) > 64:
+            return None
+        if is_list(l):
+            out.add(fd.resolve_place({'l': l})[0])
+            continue
+        if fd.is_param(l):
+            continue
+        for kind, bi, x in fd.defs.get(l, []):
+            if kind == 'assign':
+                rv = x['rv']
+                for o in [rv.get('op'), rv.get('a'), rv.get('b')] + list(rv.get('ops') or []):
+                    if isinstance(o, dict) and o.get('k') in ('copy', 'move'):
+                        st.append(o['pl']['l'])
+                if rv.get('pl'):
+                    st.append(rv['pl']['l'])
+            elif kind == 'call':
+                if local_target(fd.eng, x) is not None:
+                    return None
+                for a in x['args']:
+                    if a['k'] in ('copy', 'move') and fd._closure_info(a['pl']['l']) is None:
+                        st.append(a['pl']['l'])
+    return sorted(out)
+
+
 def _list_sources(body, fd, root, depth=0):
     """locals holding caller-given index lists that a derived list (chain / collect / extend) is built from"""
     ds = fd.defs.get(root, [])
     if depth > 4 or len(ds) != 1:
         return [root]
+    if _returned_member(fd.eng, fd, root) is not None:
+        return [root]      # handed back by a local function: judged there (_normalised_before)
     kind, bi, x = ds[0]
+    if kind == 'call' and (x.get('callee') or '').endswith(('Vec::<T>::new', 'Vec::<T>::with_capacity', 'Vec::<T, A>::with_capacity_in')):
+        # a list filled step by step (`extend_from_slice(a)`, `for j in b { out.push(f(j)) }`): the lists its elements are taken or computed from
+        out = []
+        for cbi, ct in body.calls():
+            cal = ct.get('callee') or ''
+            if not cal.endswith(('Vec::<T, A>::extend_from_slice', 'Vec::<T, A>::push', 'Vec::<T, A>::extend', 'Vec::<T, A>::append', 'Vec::<T, A>::insert')) \
+                    or len(ct['args']) < 2 or ct['args'][0]['k'] not in ('copy', 'move') or fd.resolve_place(ct['args'][0]['pl'])[0] != root:
+                continue
+            srcs = _value_list_origins(body, fd, ct['args'][-1])
+            if srcs is None:
+                return [root]
+            for r in srcs:
+                out += _list_sources(body, fd, r, depth + 1)
+        return sorted(set(out)) or [root]
     if kind == 'call' and (x.get('callee') or '') in ('std::iter::Iterator::collect', 'std::ops::Try::branch', 'std::option::Option::<T>::ok_or_else',
                                                        'std::option::Option::<T>::ok_or', 'std::iter::Iterator::chain', 'std::iter::Iterator::map',
                                                        'std::iter::Iterator::copied', 'std::iter::Iterator::cloned', 'core::slice::<impl [T]>::iter',
@@ -807,32 +1049,7 @@ def _list_sources(body, fd, root, depth=0):
     return [root]
 
 
-def _linear(zf, t, depth=0):
-    """a term as a linear form ({symbol: coefficient}, constant), expanding sums of two symbolic values the zone keeps as opaque symbols"""
-    if t is None or depth > 8:
-        return None
-    sy, c = t
-    if sy is None:
-        return ({}, c)
-    if sy.startswith('v') and sy[1:].isdigit() and (zf.body.path, int(sy[1:])) in zf.za.sums:
-        a, b = zf.za.sums[(zf.body.path, int(sy[1:]))]
-        la, lb = _linear(zf, a, depth + 1), _linear(zf, b, depth + 1)
-        if la is None or lb is None:
-            return None
-        out = dict(la[0])
-        for k, v in lb[0].items():
-            out[k] = out.get(k, 0) + v
-        return (out, la[1] + lb[1] + c)
-    if (zf.body.path, sy) in zf.za.diffs:
-        a, b = zf.za.diffs[(zf.body.path, sy)]
-        la, lb = _linear(zf, a, depth + 1), _linear(zf, b, depth + 1)
-        if la is None or lb is None:
-            return None
-        out = dict(la[0])
-        for k, v in lb[0].items():
-            out[k] = out.get(k, 0) - v
-        return ({k: v for k, v in out.items() if v != 0}, la[1] - lb[1] + c)
-    return ({sy: 1}, c)
+from zone import linear_form as _linear
 
 
 def closure_addend(pzf, czf):
@@ -910,62 +1127,92 @@ def rule_index_translation(ctx, cfg='prod-all'):
             if (local_target(eng, t) or '').endswith('prepare_parameters') and len(t['args']) >= 3:
                 gcount = _linear(zf, zf.term_op(t['args'][2]))
         # the shift closure: mapped over an iterator of the commitment index list
-        addend = None
-        which = None
-        for cb in prog.closures_of(b.path):
-            czf = za.zf(cb.path)
-            cctx = czf.closure_ctx()
-            if cctx is None or cctx[0] is not zf or cctx[3] is None:
-                continue
-            bi, t = cctx[3]
-            if (t.get('callee') or '') not in ('std::iter::Iterator::map', 'std::iter::Iterator::filter_map') or not t['args']:
-                continue
-            cont = zf.iter_container(t['args'][0])
-            root = None
-            for _ in range(6):
-                if cont is None:
-                    break
-                if cont[0] in ('cont', 'call', 'callfield'):
-                    root = cont[1]
-                    break
-                if cont[0] == 'same':
-                    root = cont[2]
-                    break
-                if cont[0] == 'sub':
-                    cont = cont[1]
+        def find_addend(b, zf, fd, kc):
+            addend, which = None, None
+            for cb in prog.closures_of(b.path):
+                czf = za.zf(cb.path)
+                cctx = czf.closure_ctx()
+                if cctx is None or cctx[0] is not zf or cctx[3] is None:
                     continue
-                break
-            if root is None:
-                continue
-            par, _c, _w = _trace_identity(fd, b, {'k': 'copy', 'pl': {'l': root}})
-            if par != kc:
-                # normalised through a helper: derived from this index-list parameter and from no other one
-                ps = {strip(x)[1] for x in fd.read(root, ()) if strip(x)[0] == 'p' and 'usize]' in b.local_ty(strip(x)[1])}
-                if ps != {kc}:
+                bi, t = cctx[3]
+                if (t.get('callee') or '') not in ('std::iter::Iterator::map', 'std::iter::Iterator::filter_map') or not t['args']:
                     continue
-            addend = closure_addend(zf, czf)
-            which = cb.path.split('::')[-1]
-        if addend is None:
-            # loop form: `for j in &commitment_indexes { out.push(j.checked_add(X)?) }` - an element of the list plus X, in this body
-            def from_list(es):
-                nm = es[5:]
-                if nm == 'disclosed_commitment_indexes':
-                    return True
-                if nm.startswith('_') and nm[1:].isdigit():
-                    l0 = int(nm[1:])
-                    if _trace_identity(fd, b, {'k': 'copy', 'pl': {'l': l0}})[0] == kc:
+                cont = zf.iter_container(t['args'][0])
+                root = None
+                for _ in range(6):
+                    if cont is None:
+                        break
+                    if cont[0] in ('cont', 'call', 'callfield'):
+                        root = cont[1]
+                        break
+                    if cont[0] == 'same':
+                        root = cont[2]
+                        break
+                    if cont[0] == 'sub':
+                        cont = cont[1]
+                        continue
+                    break
+                if root is None:
+                    continue
+                par, _c, _w = _trace_identity(fd, b, {'k': 'copy', 'pl': {'l': root}})
+                if par != kc:
+                    # normalised through a helper: derived from this index-list parameter and from no other one
+                    ps = {strip(x)[1] for x in fd.read(root, ()) if strip(x)[0] == 'p' and 'usize]' in b.local_ty(strip(x)[1])}
+                    if ps != {kc}:
+                        continue
+                addend = closure_addend(zf, czf)
+                which = cb.path.split('::')[-1]
+            if addend is None:
+                # loop form: `for j in &commitment_indexes { out.push(j.checked_add(X)?) }` - an element of the list plus X, in this body
+                def from_list(es):
+                    nm = es[5:]
+                    if nm == b.local_name(kc):
                         return True
-                    ps = {strip(x)[1] for x in fd.read(l0, ()) if strip(x)[0] == 'p' and 'usize]' in b.local_ty(strip(x)[1])}
-                    return ps == {kc}
-                return False
+                    if nm.startswith('_') and nm[1:].isdigit():
+                        l0 = int(nm[1:])
+                        if _trace_identity(fd, b, {'k': 'copy', 'pl': {'l': l0}})[0] == kc:
+                            return True
+                        ps = {strip(x)[1] for x in fd.read(l0, ()) if strip(x)[0] == 'p' and 'usize]' in b.local_ty(strip(x)[1])}
+                        return ps == {kc}
+                    return False
+                for bi, t in b.calls():
+                    if not (t.get('callee') or '').endswith(('::checked_add', '::wrapping_add', '::saturating_add')) or len(t['args']) != 2:
+                        continue
+                    ta, tb = zf.term_op(t['args'][0]), zf.term_op(t['args'][1])
+                    for x, y in ((ta, tb), (tb, ta)):
+                        if x is not None and x[0] is not None and x[1] == 0 and x[0] in zf.elem_of and from_list(zf.elem_of[x[0]]):
+                            addend = _linear(zf, y)
+                            which = 'loop L%s' % t.get('line')
+            return addend, which
+        addend, which = find_addend(b, zf, fd, kc)
+        if addend is None:
+            # the translation sits in a local function that is handed the commitment index list: its addend there, in the terms of this call
             for bi, t in b.calls():
-                if not (t.get('callee') or '').endswith(('::checked_add', '::wrapping_add', '::saturating_add')) or len(t['args']) != 2:
+                tgt = local_target(eng, t)
+                if tgt is None or tgt == b.path or tgt not in prog.bodies:
                     continue
-                ta, tb = zf.term_op(t['args'][0]), zf.term_op(t['args'][1])
-                for x, y in ((ta, tb), (tb, ta)):
-                    if x is not None and x[0] is not None and x[1] == 0 and x[0] in zf.elem_of and from_list(zf.elem_of[x[0]]):
-                        addend = _linear(zf, y)
-                        which = 'loop L%s' % t.get('line')
+                hb = prog.bodies[tgt]
+                ks = [k + 1 for k, a in enumerate(t['args']) if a['k'] in ('copy', 'move') and k + 1 <= hb.arg_count and 'usize]' in hb.local_ty(k + 1)
+                      and _trace_identity(fd, b, a)[0] == kc]
+                if len(ks) != 1:
+                    continue
+                za.summary(tgt)
+                hzf = za.zf(tgt)
+                ha, hw = find_addend(hb, hzf, hzf.fd, ks[0])
+                if ha is None:
+                    continue
+                out, oc, ok = {}, ha[1], True
+                for sy, k in ha[0].items():
+                    tt = za.subst(zf, t, (sy, 0), tgt)
+                    lt = _linear(zf, tt) if tt is not None else None
+                    if lt is None:
+                        ok = False
+                        break
+                    for s3, k3 in lt[0].items():
+                        out[s3] = out.get(s3, 0) + k * k3
+                    oc += k * lt[1]
+                if ok:
+                    addend, which = ({k_: v_ for k_, v_ in out.items() if v_ != 0}, oc), '%s in %s' % (hw, tgt.split('::')[-1])
         # what L is in this function
         def is_L(sym):
             if is_len:
@@ -1121,7 +1368,7 @@ def rule_serde_checked_decoders(ctx, cfg='prod-all'):
         for ap in aps:
             hit = False
             for g in ap['gates']:
-                if not g.dom:
+                if g.dom is not True:
                     continue
                 w = g.what or ''
                 if g.kind == 'call' and (w.endswith('::is_identity') or w.endswith('::is_zero')):
